@@ -1088,4 +1088,4 @@ def _trees(draw):
 
 
 def subs(tier):
-    return [Generated("tree", check_tree, strategy=_trees(), quick=1500, thorough=100000)]
+    return [Generated("tree", check_tree, strategy=_trees(), quick=2400, thorough=100000)]
